@@ -252,6 +252,12 @@ func (r *concRun) peerScript(rng *rand.Rand, stop <-chan struct{}) {
 		r.raw.Out.Write(f.Encode())
 		r.sendMu.Unlock()
 	}
+	if r.cfg.Pingers > 0 && r.cfg.PeerPongs != "withhold" && rng.Intn(2) == 0 {
+		// the pong of the connection's first Ping, twice, possibly before that Ping has finished writing its frame
+		time.Sleep(time.Duration(rng.Intn(400)) * time.Microsecond)
+		send(ws.Frame{Fin: true, Op: ws.OpPong, Payload: []byte("1")})
+		send(ws.Frame{Fin: true, Op: ws.OpPong, Payload: []byte("1")})
+	}
 	n := 2 + rng.Intn(6)
 	for i := 0; i < n; i++ {
 		select {
@@ -269,6 +275,13 @@ func (r *concRun) peerScript(rng *rand.Rand, stop <-chan struct{}) {
 			send(ws.Frame{Fin: true, Op: ws.OpPing, Payload: p})
 		case 1:
 			send(ws.Frame{Fin: true, Op: ws.OpPong, Payload: []byte("unsolicited")})
+			if r.cfg.PeerPongs != "withhold" && rng.Intn(2) == 0 {
+				// pongs nobody asked for (yet) whose payload a Ping of this connection uses or will use (the library numbers its
+				// pings), twice in a row: they may arrive while that Ping is still writing its frame, and again afterwards
+				guess := []byte(fmt.Sprint(1 + rng.Intn(3)))
+				send(ws.Frame{Fin: true, Op: ws.OpPong, Payload: guess})
+				send(ws.Frame{Fin: true, Op: ws.OpPong, Payload: guess})
+			}
 		default:
 			if r.cfg.Reader != "loop" {
 				continue
@@ -363,7 +376,18 @@ func runConc(cfg concCfg, rep *Report, tr *ws.Tracer) *concRun {
 				}
 				var err error
 				if wr.Intn(2) == 0 {
-					err = call("Write", func(ctx context.Context) error { return c.Write(ctx, typ, data) })
+					err = call("Write", func(ctx context.Context) (err error) {
+						ro, lent, lerr := ws.Lend(data) // write-protected for the duration of the call
+						if lerr != nil {
+							return lerr
+						}
+						defer ro.Release()
+						if f := ws.WithFaults(func() { err = c.Write(ctx, typ, lent) }); f != "" {
+							rep.miss("caller-buffer-written-during-call", cfg, f)
+							return fmt.Errorf("store into the caller's buffer")
+						}
+						return err
+					})
 				} else {
 					err = call("Writer", func(ctx context.Context) error {
 						wc, err := c.Writer(ctx, typ)
@@ -425,6 +449,13 @@ func runConc(cfg concCfg, rep *Report, tr *ws.Tracer) *concRun {
 				})
 				if err != nil {
 					r.libGotErr = err
+					if cfg.Closer == "protoerr" || cfg.Closer == "toobig" || cfg.Closer == "peerclose" {
+						// What an application does when its read loop fails: it ends the connection.  (After an error-triggered Close
+						// frame the library leaves the connection open; writers queued behind an abandoned Writer would wait for
+						// the message lock until then.)  The short delay keeps the window in which writers race the Close frame.
+						time.Sleep(time.Duration(1+rng.Intn(3)) * time.Millisecond)
+						c.CloseNow()
+					}
 					return
 				}
 				r.libGot = append(r.libGot, b)
@@ -491,7 +522,7 @@ func runConc(cfg concCfg, rep *Report, tr *ws.Tracer) *concRun {
 	select {
 	case <-done:
 	case <-time.After(12 * time.Second):
-		rep.miss("conc-actors-pending", cfg, "writers/pingers/closer did not finish within 12s")
+		rep.miss("conc-actors-pending", cfg, "writers/pingers/closer did not finish within 12s; blocked in: "+libStacks())
 	}
 	close(stopPeer)
 	pwg.Wait()
@@ -499,7 +530,17 @@ func runConc(cfg concCfg, rep *Report, tr *ws.Tracer) *concRun {
 		// give the reader a moment to drain what the peer sent, then end the connection
 		time.Sleep(time.Duration(200+rng.Intn(800)) * time.Microsecond)
 	}
-	c.CloseNow()
+	// no library call is made without a watchdog: a call that never returns is an observation, not a hung campaign
+	if !within(10*time.Second, func() { c.CloseNow() }) {
+		rep.miss("closenow-did-not-return", cfg, "CloseNow still blocked after 10s; blocked in: "+libStacks())
+		raw.In.Close()
+		raw.Out.Close()
+		select {
+		case <-r.peerEOF:
+		case <-time.After(2 * time.Second):
+		}
+		return r
+	}
 	select {
 	case <-readerDone:
 	case <-time.After(5 * time.Second):
@@ -546,7 +587,7 @@ func runConc(cfg concCfg, rep *Report, tr *ws.Tracer) *concRun {
 			break
 		}
 	}
-	if closeErr != nil && cfg.Closer == "closenow" {
+	if closeErr != nil && cfg.Closer == "closenow" && !errors.Is(closeErr, net.ErrClosed) { // net.ErrClosed: somebody else closed first
 		rep.miss("closenow-returned-error", cfg, closeErr.Error())
 	}
 	if closeDur > 8*time.Second {
@@ -554,20 +595,24 @@ func runConc(cfg concCfg, rep *Report, tr *ws.Tracer) *concRun {
 	}
 	// ---- once closed, everything fails (C06) ----
 	ctx, cancel := context.WithTimeout(bg, 2*time.Second)
-	if err := c.Write(ctx, websocket.MessageText, []byte("x")); err == nil {
-		rep.miss("write-succeeded-after-close", cfg, "")
-	}
-	if err := c.Ping(ctx); err == nil {
-		rep.miss("ping-succeeded-after-close", cfg, "")
-	}
-	if _, _, err := c.Read(ctx); err == nil {
-		rep.miss("read-succeeded-after-close", cfg, "")
-	}
-	if err := c.Close(1000, ""); !errors.Is(err, net.ErrClosed) {
-		rep.miss("close-after-close-not-ErrClosed", cfg, fmt.Sprint(err))
-	}
-	if err := c.CloseNow(); !errors.Is(err, net.ErrClosed) {
-		rep.miss("closenow-after-close-not-ErrClosed", cfg, fmt.Sprint(err))
+	if !within(20*time.Second, func() {
+		if err := c.Write(ctx, websocket.MessageText, []byte("x")); err == nil {
+			rep.miss("write-succeeded-after-close", cfg, "")
+		}
+		if err := c.Ping(ctx); err == nil {
+			rep.miss("ping-succeeded-after-close", cfg, "")
+		}
+		if _, _, err := c.Read(ctx); err == nil {
+			rep.miss("read-succeeded-after-close", cfg, "")
+		}
+		if err := c.Close(1000, ""); !errors.Is(err, net.ErrClosed) {
+			rep.miss("close-after-close-not-ErrClosed", cfg, fmt.Sprint(err))
+		}
+		if err := c.CloseNow(); !errors.Is(err, net.ErrClosed) {
+			rep.miss("closenow-after-close-not-ErrClosed", cfg, fmt.Sprint(err))
+		}
+	}) {
+		rep.miss("call-on-closed-connection-did-not-return", cfg, "blocked in: "+libStacks())
 	}
 	cancel()
 	return r
@@ -709,3 +754,45 @@ func init() {
 
 var _ = io.EOF
 var _ = strings.Contains
+
+// libStacks summarises where goroutines are blocked inside the library (evidence for "pending" reports).
+func libStacks() string {
+	buf := make([]byte, 1<<20)
+	buf = buf[:runtime.Stack(buf, true)]
+	var out []string
+	for _, blk := range strings.Split(string(buf), "\n\n") {
+		if !strings.Contains(blk, "nhooyr.io/websocket.") {
+			continue
+		}
+		var fr []string
+		for _, l := range strings.Split(blk, "\n") {
+			if strings.HasPrefix(l, "nhooyr.io/websocket") || strings.HasPrefix(l, "main.") {
+				if i := strings.LastIndex(l, "("); i > 0 {
+					l = l[:i]
+				}
+				fr = append(fr, strings.TrimPrefix(l, "nhooyr.io/websocket."))
+			}
+			if len(fr) >= 6 {
+				break
+			}
+		}
+		hdr := strings.SplitN(blk, "\n", 2)[0]
+		out = append(out, hdr+" "+strings.Join(fr, " < "))
+		if len(out) >= 12 {
+			break
+		}
+	}
+	return strings.Join(out, " || ")
+}
+
+// within runs fn in its own goroutine and reports whether it returned in time (the goroutine is left behind if not).
+func within(d time.Duration, fn func()) bool {
+	done := make(chan struct{})
+	go func() { defer close(done); fn() }()
+	select {
+	case <-done:
+		return true
+	case <-time.After(d):
+		return false
+	}
+}
